@@ -30,7 +30,7 @@ type cCase struct {
 	Bumps  [][]bool `json:"bumps"` // revision r>0: package i gets a new version + new content
 	Builds []cBuild `json:"builds"`
 	Conc   int      `json:"conc,omitempty"`  // concurrent recovery builds after the sequence
-	Plant  string   `json:"plant,omitempty"` // trunc-ctl | trunc-dat | empty-tar | foreign | trunc-index | stale-apk
+	Plant  string   `json:"plant,omitempty"` // trunc-ctl | trunc-dat | empty-tar | cut-tar | foreign | trunc-index | stale-apk
 }
 
 type cacheSuite struct{}
@@ -59,7 +59,7 @@ func (cacheSuite) Gen(r *Rng, i int, tier string) any {
 	if r.Chance(12) {
 		c.NRev = 1
 		c.Bumps = c.Bumps[:1]
-		c.Plant = Pick(r, []string{"trunc-ctl", "trunc-dat", "empty-tar", "foreign", "trunc-index", "stale-apk"})
+		c.Plant = Pick(r, []string{"trunc-ctl", "trunc-dat", "empty-tar", "cut-tar", "foreign", "trunc-index", "stale-apk"})
 		return c
 	}
 	crashK := func() int {
@@ -257,7 +257,7 @@ func (e *cacheEnv) revsField() string {
 }
 
 func failStep(desc, why string) []Step {
-	return []Step{{Line: "cache-plant\tsetup\t" + hx(why), Go: "-", Desc: desc + ": " + why, Mode: "oracle-go", GoSpec: "fail:" + why, NoImpl: true}}
+	return []Step{{Line: "cache-plant\tsetup\t" + hx(why), Go: "-", Desc: desc + ": " + why, Mode: "verdict", NoImpl: true}}
 }
 
 func (cacheSuite) Run(raw json.RawMessage) []Step {
@@ -394,6 +394,10 @@ func runPlant(c *cCase, e *cacheEnv) []Step {
 		replace(glob1(filepath.Join(vdir, "*.dat.tar.gz")), a.data[:len(a.data)/2])
 	case "empty-tar":
 		replace(glob1(filepath.Join(vdir, "*.dat.tar")), nil)
+	case "cut-tar":
+		// cut at an entry boundary: the first three entries (directories) survive, the files are gone
+		tar := gunzipAll(a.data)
+		replace(glob1(filepath.Join(vdir, "*.dat.tar")), tar[:3*512])
 	case "foreign":
 		// the sections of another package, under that package's own names, in this package's directory
 		m, _ := filepath.Glob(filepath.Join(archDir, other, "*.tar*"))
@@ -412,10 +416,6 @@ func runPlant(c *cCase, e *cacheEnv) []Step {
 	}
 	on := e.outcome(e.child(childOpts{Cache: cache}))
 	off := e.outcome(e.child(childOpts{Cache: cache, Offline: true}))
-	verdict := "pass"
-	if (on != "ok:img1" && on != "err") || (off != "ok:img1" && off != "err") {
-		verdict = "fail:planted-entry-used:" + c.Plant
-	}
-	return []Step{{Line: "cache-plant\t" + c.Plant + "\t" + on + "," + off, Go: on + "," + off, Mode: "oracle-go", GoSpec: verdict, NoImpl: true,
+	return []Step{{Line: strings.Join([]string{"cache-plant", c.Plant, "ok:img1", on, off}, "\t"), Go: "-", Mode: "verdict", NoImpl: true,
 		Tags: []string{"plant:" + c.Plant, "plant-online:" + on, "plant-offline:" + off}, Desc: "planted " + c.Plant + " → online " + on + ", offline " + off}}
 }
